@@ -11,6 +11,7 @@ PROP={  # property each repair was triaged under
  'ready queue stalled':'C06',
  'released a parked publish over':'C02',
  'handed out again while its QoS 2':'C07',
+ 'topic alias of a QoS 2 publish':'C14',
 }
 added=0
 for sha,subj in fixes:
